@@ -456,6 +456,8 @@ pub fn builder_cfgs() -> Vec<Cfg> {
             ..d()
         },
         Cfg { name: "attr-override", mode: s, allow_attrs: Some((&[("a", &["href"]), ("img", &["src"])], Beh::Override)), ..d() },
+        // an empty override list replaces the mode's attribute lists by nothing
+        Cfg { name: "attr-override-empty", mode: s, allow_attrs: Some((&[], Beh::Override)), ..d() },
         Cfg { name: "attr-nomode", allow_attrs: Some((&[("a", &["href"]), ("code", &["class"])], Beh::Override)), ..d() },
         Cfg { name: "attr-remove", mode: s, remove_attrs: Some(&[("a", &["target", "href"]), ("span", &["data-mx-color"])]), ..d() },
         Cfg {
@@ -1084,6 +1086,11 @@ pub fn ladder_docs() -> Vec<(String, String)> {
             }
         }
     }
+    // documents without any markup: characters the serializer escapes, entities with and without `;`
+    // (the string helpers must agree with parse + sanitize + print on them too)
+    for (i, t) in ["Tom & Jerry > all", "caf\u{a0}e &copy 2024 &amp; &lt;b", "a &#x41; &bogus; b \"q\"", "", " ", "x"].iter().enumerate() {
+        out.push((format!("text-only/{i}"), (*t).to_owned()));
+    }
     out
 }
 
@@ -1098,7 +1105,7 @@ pub const MATRIX_ELEMENTS: [&str; 72] = [
     "area",
 ];
 
-pub const MATRIX_ATTRS: [&str; 31] = [
+pub const MATRIX_ATTRS: [&str; 35] = [
     "data-mx-bg-color=\"#00ff00\"",
     "data-mx-color=\"#ff0000\"",
     "data-mx-spoiler=\"r\"",
@@ -1131,6 +1138,12 @@ pub const MATRIX_ATTRS: [&str; 31] = [
     "class=\"language-rust\nevil\"",
     "class=\"language-rust\x0cevil\"",
     "class=\"evil\rlanguage-rust\"",
+    // near misses of the class patterns the configurations allow (`evil`, `ev*`, `language-*`): a pattern
+    // without `*` is an exact name, and `*` stands where it is written
+    "class=\"evilx evil\"",
+    "class=\"evil-2 xevil\"",
+    "class=\"language xlanguage-rust\"",
+    "class=\"e ev\"",
 ];
 
 /// wrap an element (with its attribute text) in the context the HTML parser needs to keep it
